@@ -32,6 +32,8 @@ SIGNATURES = {
     "arange": ("start",), "floor": ("a",), "exp": ("a",), "log": ("a",), "array": ("a",),
     "concatenate": ("a", "axis"), "stack": ("a", "axis"), "unique": ("a",),
     "full": ("shape", "fill_value"),
+    "cumsum": ("a", "axis"), "count_nonzero": ("a", "axis"), "nonzero": ("a",), "where": ("condition", "x", "y"),
+    "isclose": ("a", "b"), "meshgrid": (), "broadcast_arrays": (),
 }
 ELEMENTWISE_BIN = {
     "add": "+", "subtract": "-", "multiply": "*", "divide": "/", "true_divide": "/",
@@ -40,7 +42,7 @@ ELEMENTWISE_BIN = {
 NS_PREFIXES = ("jax.numpy.", "numpy.", "jax.ops.", "jax.scipy.special.", "jax.lax.", "jax.nn.")
 METHODS = {
     "max", "min", "sum", "prod", "argmax", "argmin", "any", "all", "mean", "reshape", "transpose",
-    "astype", "clip", "repeat", "flatten", "ravel", "squeeze", "cumsum", "round",
+    "astype", "clip", "repeat", "flatten", "ravel", "squeeze", "cumsum", "round", "count_nonzero",
 }
 
 
@@ -162,6 +164,70 @@ def _none_test(c):
     return None
 
 
+def _looks_like_list(t):
+    """A `+` whose operands (recursively) include a list display or list(...): concatenation."""
+    for side in (t[2], t[3]):
+        if side[0] == "list" or (side[0] == "call" and side[1] == ("glob", "builtins.list")):
+            return True
+        if side[0] == "binop" and side[1] == "+" and _looks_like_list(side):
+            return True
+        if side[0] == "sub" and side[2][0] == "slice":
+            return True  # L[1:] + [...]
+    return False
+
+
+def _strip_keys(x):
+    """X.keys() -> X (same iteration order, same membership)."""
+    if is_term(x) and x[0] == "call" and x[1][0] == "attr" and x[1][2] == "keys" and not x[2] and not x[3]:
+        return x[1][1]
+    return x
+
+
+def _bar_parts(n):
+    """Flatten a normalised `|`-chain / dict-merge into its ordered parts."""
+    if is_term(n) and n[0] == "bar":
+        return list(n[1])
+    return [n]
+
+
+def _mk_bar(parts):
+    out = []
+    for p in parts:
+        if p == ("dict", ()):
+            continue  # merging an empty dict changes nothing
+        if out and is_term(p) and p[0] == "dict" and is_term(out[-1]) and out[-1][0] == "dict":
+            out[-1] = ("dict", out[-1][1] + p[1])  # adjacent explicit items
+        else:
+            out.append(p)
+    if not out:
+        return ("dict", ())
+    if len(out) == 1:
+        return out[0]
+    return ("bar", tuple(out))
+
+
+def _cat_parts(n):
+    if is_term(n) and n[0] == "cat":
+        return list(n[1])
+    if is_term(n) and n[0] == "list":
+        return [n] if n[1] else []
+    if is_term(n) and n[0] == "call" and n[1] == ("glob", "builtins.list") and len(n[2]) == 1 and not n[3]:
+        return [("seq", n[2][0])]
+    return None
+
+
+def _mk_cat(parts):
+    out = []
+    for p in parts:
+        if out and p[0] == "list" and out[-1][0] == "list":
+            out[-1] = ("list", out[-1][1] + p[1])
+        else:
+            out.append(p)
+    if len(out) == 1 and out[0][0] == "list":
+        return out[0]
+    return ("cat", tuple(out))
+
+
 def norm(t, _arith=True):  # noqa: C901, PLR0911, PLR0912
     if not is_term(t):
         if isinstance(t, tuple):
@@ -173,7 +239,7 @@ def norm(t, _arith=True):  # noqa: C901, PLR0911, PLR0912
         if t == ("glob", "jax.numpy.inf") or t == ("glob", "numpy.inf") or t == ("glob", "math.inf"):
             return POS_INF
         return t
-    if _arith and is_arith(t):
+    if _arith and is_arith(t) and not (t[0] == "binop" and t[1] == "+" and _looks_like_list(t)):
         p = poly(t)
         if p == {(): Fraction(-1)} and False:
             return ("const", -1)
@@ -189,10 +255,66 @@ def norm(t, _arith=True):  # noqa: C901, PLR0911, PLR0912
             if len(m) == 1 and m[0][1] == 1 and c == 1:
                 return m[0][0]
         return ("poly", freeze(p))
+    if tag == "dict":
+        parts, run = [], []
+        for k, v in t[1]:
+            if k is None:
+                if run:
+                    parts.append(("dict", tuple(run)))
+                    run = []
+                parts += _bar_parts(norm(v))
+            else:
+                run.append((norm(k), norm(v)))
+        if run or not parts:
+            parts.append(("dict", tuple(run)))
+        return _mk_bar(parts) if any(k is None for k, _ in t[1]) else ("dict", tuple(run))
+    if tag == "binop" and t[1] == "|":
+        return _mk_bar(_bar_parts(norm(t[2])) + _bar_parts(norm(t[3])))
+    if tag == "setitem":
+        return _mk_bar(_bar_parts(norm(t[1])) + [("dict", ((norm(t[2]), norm(t[3])),))])
+    if tag == "mut" and t[2] == "update" and len(t[3]) == 1 and not t[4]:
+        return _mk_bar(_bar_parts(norm(t[1])) + _bar_parts(norm(t[3][0])))
+    if tag == "tuple" and any(x[0] == "star" for x in t[1]):
+        return ("call", ("glob", "builtins.tuple"), (norm(("list", t[1])),), ())
+    if tag == "call" and t[1][0] == "attr" and t[1][2] in ("difference", "union", "intersection") and len(t[2]) == 1 and not t[3]:
+        op = {"difference": "-", "union": "|", "intersection": "&"}[t[1][2]]
+        return norm(("binop", op, t[1][1], t[2][0]))
+    if tag == "call" and t[1] == ("glob", "builtins.len") and len(t[2]) == 1 and t[2][0][0] == "comp" and t[2][0][1] in ("list", "gen", "set") \
+            and len(t[2][0][3]) == 1 and t[2][0][3][0][2]:
+        c = t[2][0]
+        tg, it, conds = c[3][0]
+        cond = conds[0] if len(conds) == 1 else ("boolop", "and", tuple(conds))
+        return ("op", "count", (("where", norm(cond)), ("for", norm(tg)), ("in", norm(_strip_keys(it)))), (), ())
+    if tag == "call" and t[1] == ("glob", "builtins.sum") and len(t[2]) == 1 and t[2][0][0] == "comp" and len(t[2][0][3]) == 1 \
+            and not t[2][0][3][0][2] and is_term(t[2][0][2]) and t[2][0][2][0] in ("cmp", "boolop"):
+        c = t[2][0]
+        tg, it, _conds = c[3][0]
+        return ("op", "count", (("where", norm(c[2])), ("for", norm(tg)), ("in", norm(_strip_keys(it)))), (), ())
+    if tag == "list" and any(x[0] == "star" for x in t[1]):
+        parts = []
+        for x in t[1]:
+            if x[0] == "star":
+                parts.append(("seq", norm(_strip_keys(x[1]))))
+            else:
+                parts.append(("list", (norm(x),)))
+        return _mk_cat(parts)
+    if tag == "binop" and t[1] == "+":
+        a, b = norm(t[2], _arith=False) if False else None, None
+        la, lb = _cat_parts(norm(t[2])) if not is_arith(t[2]) or t[2][0] == "binop" else None, None
+        na, nb = norm(t[2]), norm(t[3])
+        la, lb = _cat_parts(na), _cat_parts(nb)
+        if la is not None or lb is not None:
+            la = la if la is not None else [("seq", na)]
+            lb = lb if lb is not None else [("seq", nb)]
+            return _mk_cat(la + lb)
     if tag in ("phi", "ifexp"):
         c = t[1]
         nt = _none_test(c)
         a, b = norm(t[2]), norm(t[3])
+        if t[2] == ("undef",):
+            return b  # the other arm is the only one on which the value is used (the rest raises)
+        if t[3] == ("undef",):
+            return a
         if nt is not None:
             x, is_none = nt
             return ("ifnone", norm(x), a if is_none else b, b if is_none else a)
@@ -208,6 +330,9 @@ def norm(t, _arith=True):  # noqa: C901, PLR0911, PLR0912
             if sel is not None:
                 return ("call", ("attr", norm(f[1]), "query"), (sel,), ())
         name = callee_name(t)
+        if name in ("builtins.set", "builtins.list", "builtins.tuple", "builtins.sorted", "builtins.len",
+                    "builtins.frozenset", "builtins.iter", "builtins.enumerate") and len(t[2]) >= 1:
+            t = ("call", f, (_strip_keys(t[2][0]), *t[2][1:]), t[3])
         op = lib_op(name)
         pargs = list(t[2])
         kws = [(k, v) for k, v in t[3]]
@@ -259,9 +384,9 @@ def norm(t, _arith=True):  # noqa: C901, PLR0911, PLR0912
             return ("op", op, tuple(sorted(named.items())), tuple(rest), tuple(sorted(splats, key=repr)))
         return ("call", norm(f), tuple(norm(p) for p in t[2]),
                 tuple((k, norm(v)) for k, v in t[3]))
-    if tag == "binop" and t[1] in ("&", "|"):
+    if tag == "binop" and t[1] == "&":
         xs = sorted((norm(t[2]), norm(t[3])), key=repr)
-        return ("op", "and" if t[1] == "&" else "or", tuple(xs))
+        return ("op", "and", tuple(xs))
     if tag == "cmp" and len(t[1]) == 1 and t[1][0] in ("<", ">", "<=", ">=", "!=", "=="):
         a, b = norm(t[2][0]), norm(t[2][1])
         op = t[1][0]
@@ -271,6 +396,12 @@ def norm(t, _arith=True):  # noqa: C901, PLR0911, PLR0912
         return ("cmp", (op,), (a, b))
     if tag == "boolop":
         return ("boolop", t[1], tuple(norm(x) for x in t[2]))
+    if tag == "comp":
+        gens = tuple((norm(tg), norm(_strip_keys(it)), tuple(norm(c) for c in conds)) for tg, it, conds in t[3])
+        elt = (norm(t[2][0]), norm(t[2][1])) if t[1] == "dict" else norm(t[2])
+        return ("comp", t[1], elt, gens)
+    if tag == "cmp" and len(t[1]) == 1 and t[1][0] in ("in", "not in"):
+        return ("cmp", t[1], (norm(t[2][0]), norm(_strip_keys(t[2][1]))))
     return tuple(norm(x) if isinstance(x, tuple) else x for x in t)
 
 
